@@ -350,6 +350,37 @@ func genCloseChecks(r *repo, o *out) {
 		})
 		o.def("kvfs"+m+"Steps", "List String", leanStrList(calls), "os.* and stream.* calls of kvfs "+m+", in source order")
 	}
+	// kvfs.OpenWriter: the open flags, and for every assignment of the staging name whether a fresh guid is part of it
+	{
+		fd := r.funcDecl("warehouse/impl/kvfs", "Controller", "OpenWriter")
+		var wflags []string
+		var fresh []string
+		ast.Inspect(fd, func(n ast.Node) bool {
+			switch x := n.(type) {
+			case *ast.CallExpr:
+				if se, ok := x.Fun.(*ast.SelectorExpr); ok && se.Sel.Name == "OpenFile" && len(x.Args) >= 2 {
+					for _, fl := range strings.Split(r.src(x.Args[1]), "|") {
+						wflags = append(wflags, strings.TrimSpace(fl))
+					}
+				}
+			case *ast.AssignStmt:
+				for i, lhs := range x.Lhs {
+					if id, ok := lhs.(*ast.Ident); ok && id.Name == "tmpName" && i < len(x.Rhs) {
+						src := r.src(x.Rhs[i])
+						if strings.Contains(src, "guid.New()") {
+							fresh = append(fresh, "guid")
+						} else {
+							fresh = append(fresh, "fixed:"+src)
+						}
+					}
+				}
+			}
+			return true
+		})
+		sort.Strings(wflags)
+		o.def("kvfsWriterFlags", "List String", leanStrList(wflags), "flags with which kvfs.OpenWriter opens the staging file (sorted)")
+		o.def("kvfsStagingNames", "List String", leanStrList(fresh), "per assignment of the staging name in kvfs.OpenWriter: does it contain a fresh guid")
+	}
 }
 
 // ---- C06 / C07: per osfs method, the resolveLast argument and the host call ----
